@@ -28,8 +28,10 @@ PROPS = {
                 "lines, non-trivial if at least one strictly ordered pair (separator exercised)",
         "trusted_base": BASE_TRUST + ["modelled, not verified: types.rs, tuple_types.rs, complex_types.rs (varint), types/uuid.rs, btree_base.rs::branch_separator"],
         "assumptions": ["chrono types, f32/f64 (not keys) and user-defined Key impls are out of scope"],
-        "explanation": "Lean theorems: comparator laws on valid encodings, separator contract, min-key; model == implementation on compare/"
-                       "fixed_width/min_encoded_key exactly, separators judged by the decidable contract sepOk (byte equality is a statistic)",
+        "explanation": "Lean theorems: comparator laws on valid encodings, separator contract, min-key; value level: encode valid, decode∘encode = id, "
+                       "byte order of encodings = value order (Model/KeyVal.lean); model == implementation on as_bytes (`key enc`: the model encodes the "
+                       "value given as text), native Ord (`key vcmp`), compare / fixed_width / min_encoded_key exactly, separators judged by the decidable "
+                       "contract sepOk (byte equality is a statistic)",
     },
     "C04": {
         "props_module": "RedbModel.Props.C04",
